@@ -231,7 +231,7 @@ impl<A: StateApi> StateInner<A> {
             self.slots.regs(&mut regs);
             let api = &self.api;
             let slots = &self.slots;
-            self.view = inspect_and_check(ctx, Shape::List, regs, &mut |v| api.inspect(v), &mut |r| slots.node_info(r.slot as usize));
+            self.view = inspect_and_check(ctx, Shape::List, regs, &mut |v| api.inspect(v), &mut |r| slots.node_info(r.slot as usize), &|_, i| i.state == 1);
             let closed = self.view.prim.flag;
             let m = self.closed;
             let (tx, rx) = (self.api.n_tx(), self.api.n_rx());
